@@ -278,3 +278,115 @@ func ipBytes(ip net.IP) []byte {
 	}
 	return []byte(ip)
 }
+
+// ---------------------------------------------------------------- C18C: two subnets, one-sided allowlist
+
+func init() {
+	register(&Scenario{Name: "C18C", Gen: genC18C, Exec: execC18C})
+}
+
+func genC18C(c *Ctx) *Plan {
+	r := c.R
+	p := &Plan{N: r.rangeI(3, 7), Cfg: genCfg(r), P: map[string]int64{}}
+	p.Cfg.HandoffDepth = 1024
+	n := p.N
+	split := r.rangeI(1, n-1) // nodes < split live in 10.0.0.0/24 and enforce the allowlist
+	p.P["split"] = int64(split)
+	p.Net.MinDelay = 1000
+	p.Net.MaxDelay = int64(ms(p.Cfg.ProbeTimeoutMs)) / 8
+	t := int64(1000)
+	for i := 0; i < n; i++ {
+		t += 1_000_000 + r.i64n(150_000_000)
+		p.Ops = append(p.Ops, Op{At: t, Kind: "create", Node: i})
+	}
+	base := t + 500_000_000
+	dur := int64(time.Duration(r.rangeI(8, 20)) * time.Second)
+	// joins in every direction: inside->inside, outside->outside, outside->inside, inside->outside
+	for i := 0; i < r.rangeI(n, 3*n); i++ {
+		a := r.intn(n)
+		b := r.intn(n)
+		if a == b {
+			continue
+		}
+		p.Ops = append(p.Ops, Op{At: base + r.i64n(dur), Kind: "join", Node: a, L: []int64{int64(b)}})
+	}
+	for i := 0; i < r.rangeI(0, 6); i++ {
+		p.Ops = append(p.Ops, Op{At: base + r.i64n(dur), Kind: "update", Node: r.intn(n), A: 500, S: fmt.Sprintf("meta-%d", i)})
+	}
+	p.P["end"] = base + dur + int64(3*time.Second)
+	p.YieldOff = genYieldOff(r)
+	return p
+}
+
+type c18cmon struct {
+	split int
+	nets  []net.IPNet
+}
+
+func (m *c18cmon) step(cx *clusterRun) {
+	for _, n := range cx.cl.nodes {
+		if n.m == nil || n.idx >= m.split {
+			continue
+		}
+		n.m.nodeLock.RLock()
+		for name, st := range n.m.nodeMap {
+			if !c18Inside(st.Addr, m.nets) {
+				n.m.nodeLock.RUnlock()
+				cx.c.Violate("disallowed-address-stored", "", n.name, "%s (allowlist 10.0.0.0/24) holds a record of %s at %v", n.name, name, net.IP(st.Addr))
+				return
+			}
+		}
+		n.m.nodeLock.RUnlock()
+		n.mu.Lock()
+		for _, e := range n.events {
+			if !c18Inside(e.IP, m.nets) {
+				n.mu.Unlock()
+				cx.c.Violate("disallowed-address-in-event", "", n.name, "%s delivered a %s event for %s at %v", n.name, e.Kind, e.Name, net.IP(e.IP))
+				return
+			}
+		}
+		n.mu.Unlock()
+	}
+}
+func (m *c18cmon) finish(cx *clusterRun) {}
+
+func execC18C(c *Ctx) {
+	p := c.Plan
+	split := int(p.param("split", 1))
+	nets, _ := ParseCIDRs([]string{"10.0.0.0/24"})
+	mon := &c18cmon{split: split, nets: nets}
+	cx := startClusterRun(c, mon, newEventMon(), &healthMon{})
+	// outside nodes get addresses in 10.9.0.0/24
+	for _, n := range cx.cl.nodes {
+		if n.idx >= split {
+			n.ip = ip4(10, 9, 0, byte(1+n.idx))
+		}
+	}
+	cx.customOp = func(rec *opRec) bool {
+		op := rec.Op
+		n := cx.node(op.Node)
+		if op.Kind == "create" && n != nil && !n.created {
+			if err := cx.cl.create(n, func(conf *Config) {
+				if n.idx < split {
+					conf.CIDRsAllowed = nets
+				}
+			}); err != nil {
+				rec.Err = err.Error()
+			}
+			return true
+		}
+		return false
+	}
+	end := time.Duration(p.param("end", int64(20*time.Second)))
+	c.Sim.RunUntil(end, func() bool { return c.Failed() })
+	crossTried := 0
+	for _, rec := range cx.ops {
+		if rec.Op.Kind == "join" && len(rec.Op.L) > 0 && (rec.Op.Node < split) != (int(rec.Op.L[0]) < split) {
+			crossTried++
+		}
+	}
+	c.Res.Nontrivial = crossTried > 0
+	c.Stat("cross_subnet_joins", int64(crossTried))
+	c.Res.Sample = map[string]any{"n": p.N, "inside_nodes": split, "cross_joins": crossTried}
+	cx.finish()
+}
